@@ -5,7 +5,8 @@
 From Coq Require Import List ZArith.
 Import ListNotations.
 From Model Require Import Key Sel GFI.
-From Proofs Require Import GFIBase GFIRef GFIWf GFIConsistent GFIProject GFISim.
+From Model Require Import GFIEdit.
+From Proofs Require Import GFIBase GFIRef GFIWf GFIConsistent GFIProject GFISim GFIGen GFIEditProofs.
 
 Theorem C02_assess_is_sum_of_log_densities : forall g c a,
   assess g c a = match ref g c a with Ok (l, v) => Ok (tsum l, v) | Err e => Err e end.
@@ -29,6 +30,25 @@ Theorem C02_masked_off_contributes_nothing : forall g c a l v,
   ref (GMask g) c (VB false :: a) = Ok (l, v) -> l = [].
 Proof. exact ref_mask_false. Qed.
 Print Assumptions C02_masked_off_contributes_nothing.
+
+(* the same for the traces importance and edits return: "the score of its traces" *)
+Theorem C02_importance_trace_score : forall g k c a t w,
+  wfg g -> generate g k c a = Ok (t, w) -> sites_live t ->
+  ref g (t_choices t) (t_args t) = Ok (t_terms t, t_retval t) /\ t_score t = tsum (t_terms t).
+Proof.
+  intros g k c a t w Hg H Hl. destruct (proj1 generate_wft_all _ _ _ _ _ H) as [Hw _]. simpl in Hw.
+  exact (proj1 wft_ref_all g Hg t Hw Hl).
+Qed.
+Print Assumptions C02_importance_trace_score.
+Theorem C02_edited_trace_score : forall g k t r a tg t' w b,
+  wfg g -> plain r -> wft g t -> edit g k t r a tg = Ok (t', w, b) -> sites_live t' ->
+  ref g (t_choices t') (t_args t') = Ok (t_terms t', t_retval t') /\ t_score t' = tsum (t_terms t').
+Proof.
+  intros g k t r a tg t' w b Hg Hp Hw H Hl.
+  destruct (edit_ok g k t r a tg t' w b Hg Hp Hw H) as [Hw' _].
+  exact (proj1 wft_ref_all g Hg t' Hw' Hl).
+Qed.
+Print Assumptions C02_edited_trace_score.
 
 (* ---- non-vacuity: concrete non-trivial programs and traces meeting the hypotheses above (proofs/GFIWitness.v) ---- *)
 From Proofs Require Import GFIWitness.
